@@ -29,7 +29,7 @@ PROPS = {
     "C13": dict(flavours=["asan"], quick=60000, thorough=2500000, chunk=1500, level="exploration"),
     "C18": dict(flavours=["asan"], quick=12000, thorough=400000, chunk=300, level="exploration"),
     "C19": dict(flavours=["asan", "tsan"], quick=1500, thorough=60000, chunk=50, level="exploration"),
-    "C20": dict(flavours=["asan"], quick=3000, thorough=100000, chunk=60, level="fault_enumeration"),
+    "C20": dict(flavours=["asan"], quick=6000, thorough=150000, chunk=100, level="fault_enumeration"),
 }
 
 EXIT_CLASSES = {70: "TERMINATE", 71: "ABORT", 72: "HANG", 77: "SANITIZER", 78: "RACE_TSAN"}
@@ -595,7 +595,8 @@ def write_evidence(prop, tier, seed, cfg, per_flavour, found, known_hits, known_
         "seed": seed,
         "level": cfg["level"],
         "coverage": {
-            "evaluations": sum(s["evaluations"] for s in per_flavour.values()),
+            "evaluations": (main["counters"].get("fault_positions", 0) if prop == "C20" else sum(s["evaluations"] for s in per_flavour.values())),
+            "scenarios": sum(s["evaluations"] for s in per_flavour.values()),
             "distinct_nontrivial": sum(s["distinct_nontrivial"] for s in per_flavour.values()),
             "rule": RULES[prop],
             "samples": samples,
